@@ -102,13 +102,11 @@ XalanOutputStream::write(
 
     if (theBufferLength + m_buffer.size() > m_bufferSize)
     {
-        flushBuffer();
+        flushBufferForMoreData();
     }
 
-    if (theBufferLength > m_bufferSize)
+    if (theBufferLength > m_bufferSize && m_buffer.empty() == true)
     {
-        assert(m_buffer.empty() == true);
-
         doWrite(theBuffer, theBufferLength);
     }
     else
@@ -345,6 +343,29 @@ XalanOutputStream::flushBuffer()
     }
 
     assert(m_buffer.empty() == true);
+}
+
+
+
+void
+XalanOutputStream::flushBufferForMoreData()
+{
+    if (m_buffer.empty() == false &&
+        0xD800u <= m_buffer.back() &&
+        m_buffer.back() < 0xDC00u)
+    {
+        const XalanDOMChar  theHighSurrogate = m_buffer.back();
+
+        m_buffer.pop_back();
+
+        flushBuffer();
+
+        m_buffer.push_back(theHighSurrogate);
+    }
+    else
+    {
+        flushBuffer();
+    }
 }
 
 
